@@ -111,6 +111,10 @@ pub enum InputSpec {
     DeepVal { depth: u32, leaf: i64 },
     /// `evaluate(&Chain { v, next: Some(Box<Chain …>) })`: a derived recursive struct, `depth` links
     DeepChain { depth: u32 },
+    /// `evaluate(&T)` for further shapes of the serde data model: 0 i64, 1 String, 2 None::<i64>,
+    /// 3 Some(i64), 4 Some(struct), 5 (i64, bool), 6 Vec<i64>, 7 newtype struct, 8 unit struct,
+    /// 9 char, 10 bool, 11 empty string-keyed map, 12 f64, 13 tuple struct, 14 Vec<struct>
+    Typed(u8, i64),
 }
 
 #[derive(Clone, Copy, Debug, PartialEq, Eq, Serialize, Deserialize)]
